@@ -532,11 +532,15 @@ static cat_return_state h_text(const struct cat_command *c, uint8_t *d, size_t *
                         memcpy(d + *n, s->tag, s->taglen);
                         *n += s->taglen;
                         d[*n] = 0;
+                } else if (s->edit == 3) {
+                        *n = m;          /* text untouched (still NUL-terminated), length reported as the full capacity */
+                } else if (s->edit == 4) {
+                        *n = 0;          /* text untouched, length reported as 0 */
                 }
         }
-        hexout(d, *n < m ? *n : m);
+        hexout(d, strnlen((const char *)d, m));   /* the text the library will emit: up to the terminator */
         emit(" %d\n", code);
-        hash_long(&cb_hash, 100 + kind + 10 * fsm); hash_long(&cb_hash, ci); hash_long(&cb_hash, (long)seen); hash_bytes(&cb_hash, d, *n < m ? *n : m); hash_long(&cb_hash, code);
+        hash_long(&cb_hash, 100 + kind + 10 * fsm); hash_long(&cb_hash, ci); hash_long(&cb_hash, (long)seen); hash_bytes(&cb_hash, d, strnlen((const char *)d, m)); hash_long(&cb_hash, code);
         if (fsm == 1 && code == CAT_RETURN_STATE_HOLD)
                 n_u_hold++;   /* parks the command FSM (outside every statement, DESIGN 4.6): it may then emit a result code of its own */
         if (s && s->act)
